@@ -58,6 +58,11 @@ class Batches:
         plain = [b for b in SEEN if "".join(b["cost"]).isdigit() and 0 < int("".join(b["cost"])) < 2**16 and b["sub"] in ("debit", "reserve")]
         rnd.shuffle(plain)
         nb = 6 if self.tier == "quick" else 40
+        # a peer that keeps its connection and stays quiet for a while before it asks again
+        from .pipe import limbs
+        for k, (ms, sub, used, money) in enumerate([(4000, "debit", 3, 0), (4000, "reserve", 0, 100)] +
+                                                   ([] if self.tier == "quick" else [(9000, "debit", 5, 0), (31000, "reserve", 0, 50)])):
+            yield dict(id="C08-idle%d" % k, cost=["7"], sub=sub, consumed=limbs(used), quota=limbs(money), steps=[1], pause=ms)
         # a tariff that changes between two reads of the store while one request is served
         k = 0
         for a, b in [("2", "3"), ("3", "2"), ("1", "7"), ("10", "3"), ("4", "5")]:
